@@ -78,13 +78,17 @@ GroupChoicesA == {<<NoReq(2)>>, <<NoReq(1), NoReq(2)>>, <<NoReq(3), NoReq(2)>>} 
 NoAttrs       == {<<>>}
 NoKeys        == {{}}
 \* requirements / attestations (C08, C07)
-ReqChoices    == {<<>>, Attr("k1", "x"), Attr("k1", "x") @@ Attr("k2", "x")}
+ReqChoices    == {<<>>, Attr("key1", "x"), Attr("key2", "x"), Attr("key1", "x") @@ Attr("key2", "x")}
 SignChoices   == {<<{}, {}>>, <<{"a1"}, {}>>, <<{}, {"a1", "a2"}>>, <<{"a1"}, {"a2"}>>, <<{"a1", "a2"}, {}>>, <<{}, {"a2"}>>}
 GroupChoicesR == {<<[price |-> 2, req |-> r, allOf |-> sg[1], anyOf |-> sg[2]]>> : r \in ReqChoices, sg \in SignChoices}
-AttrChoicesR  == {<<>>, Attr("k1", "x"), Attr("k1", "y"), Attr("k1", "x") @@ Attr("k2", "x"), Attr("k2", "x"),
-                  Attr("k1", "x") @@ Attr("k2", "x") @@ Attr("k3", "x") @@ Attr("k4", "x") @@ Attr("k5", "x"),
-                  Attr("k3", "y") @@ Attr("k4", "y") @@ Attr("k6", "y") @@ Attr("k7", "y")}
-KeyChoicesR   == {{}, {"k1"}, {"k1", "k2"}, {"k3", "k4"}}
+AttrChoicesR  == {<<>>, Attr("key1", "x"), Attr("key1", "y"), Attr("key1", "x") @@ Attr("key2", "x"), Attr("key2", "x"),
+                  Attr("key1", "x") @@ Attr("key2", "x") @@ Attr("key3", "x") @@ Attr("Key3", "x") @@ Attr("key5", "x"),
+                  Attr("key3", "y") @@ Attr("Key3", "y") @@ Attr("key6", "y") @@ Attr("Key6", "y") @@ Attr("key-7", "y")}
+\* exhaustive family for the admission predicate and the provider update guard (C08)
+GroupChoicesRX == {<<[price |-> 2, req |-> Attr("key1", "x"), allOf |-> {}, anyOf |-> {}]>>,
+                   <<[price |-> 2, req |-> Attr("key2", "x"), allOf |-> {}, anyOf |-> {}]>>}
+AttrChoicesRX  == {Attr("key1", "x") @@ Attr("key2", "x"), Attr("key1", "x"), Attr("key2", "x")}
+KeyChoicesR   == {{}, {"key1"}, {"key1", "key2"}, {"key3", "key4"}}
 
 \* J2: print every generated behaviour of full length (simulation mode)
 Export == Len(hist) < MaxSteps \/ PrintT(<<"BEHAVIOUR", ToJson(hist)>>)
